@@ -24,6 +24,7 @@ fn addr_of<T>(h: &Handle<T>) -> *const () {
 macro_rules! instances {
     ($( $name:ident => $body:expr; )*) => { $(
         #[cfg_attr(kani, kani::proof)]
+        #[cfg_attr(amv_replay, test)]
         #[cfg_attr(kani, kani::unwind(10))]
         #[cfg_attr(kani, kani::stub(crate::error::ErrorKind::or, crate::amv::common::or_contract))]
         pub(crate) fn $name() { $body }
